@@ -7,7 +7,7 @@ echo "" >> $out
 echo "| change | property | result |" >> $out
 echo "|---|---|---|" >> $out
 for d in seeded/C*-*; do
-  id=$(basename $d); p=${id%-*}
+  id=$(basename $d); p=${id%%-*}
   r=$(tools/trymut.sh $d/patch.diff $p 2>&1 | grep "^\[$p\]" | sed 's/|/\\|/g' | cut -c1-160)
   echo "| $id | $p | $r |" >> $out
 done
